@@ -106,10 +106,7 @@ deriving DecidableEq, Repr, Inhabited
 structure PN (N : Type) where
   vertices : List N
   edges : List (N × N × N)
-deriving Repr
-
-instance {N} [DecidableEq N] : DecidableEq (PN N) := fun a b => by
-  cases a; cases b; simp only [PN.mk.injEq]; exact inferInstance
+deriving Repr, DecidableEq
 
 /-- `TopologyError` -/
 inductive TopoErr where
@@ -131,6 +128,7 @@ structure Derived (N : Type) where
   pn : Option (PN N)
   topology : Option Topology
   cc : Option CC
+deriving DecidableEq
 
 def Mesh.derived {V N} (s : Mesh V N) : Derived N := ⟨s.pn, s.topology, s.cc⟩
 
@@ -306,7 +304,7 @@ def computeTopology (nv : Nat) (idx : List Tri) : TopoRes :=
 
 /-! ## `compute_connected_components` -/
 
-def min3 (a b c : Nat) : Nat := Nat.min (Nat.min a b) c
+def min3 (a b c : Nat) : Nat := min (min a b) c
 
 /-- the three `ufind.union` calls of one triangle: the classes of `a`, `b`, `c` become one class
 (labelled by the smallest label) -/
@@ -373,24 +371,36 @@ def computeCC (nv : Nat) (idx : List Tri) : Option CC :=
 /-- `SortedPair::new` -/
 def sortedPair (a b : Nat) : Nat × Nat := if a > b then (b, a) else (a, b)
 
+/-- effect of one triangle on `vertices_pseudo_normal[v]` (the three `+=`, in program order) -/
+def vertexStep [Geo V N] (v : Nat) (acc : N) (tc : Tri × Option (N × N × N × N)) : N :=
+  match tc.2 with
+  | none => acc
+  | some (_, w1, w2, w3) =>
+    let acc := if tc.1.a = v then Geo.nadd V acc w1 else acc
+    let acc := if tc.1.b = v then Geo.nadd V acc w2 else acc
+    if tc.1.c = v then Geo.nadd V acc w3 else acc
+
 /-- value of `vertices_pseudo_normal[v]` after the loop: the additions into slot `v`, in program order -/
 def vertexAcc [Geo V N] (cs : List (Tri × Option (N × N × N × N))) (v : Nat) : N :=
-  cs.foldl (fun acc tc => match tc.2 with
-    | none => acc
-    | some (_, w1, w2, w3) =>
-      let acc := if tc.1.a = v then Geo.nadd V acc w1 else acc
-      let acc := if tc.1.b = v then Geo.nadd V acc w2 else acc
-      if tc.1.c = v then Geo.nadd V acc w3 else acc) (Geo.nzero V)
+  cs.foldl (vertexStep (V := V) v) (Geo.nzero V)
 
-/-- value of `edges_pseudo_normal.get(key)`: the additions into that entry, in program order
-(edges of a triangle are visited in the order `(0,1)`, `(0,2)`, `(1,2)`); `none` if the key was never inserted -/
+/-- `*edges_pseudo_normal.entry(edge).or_insert_with(zeros) += n` if `edge = key` -/
+def edgeAdd [Geo V N] (key : Nat × Nat) (n : N) (acc : Option N) (e : Nat × Nat) : Option N :=
+  if e = key then some (Geo.nadd V (acc.getD (Geo.nzero V)) n) else acc
+
+/-- effect of one triangle on the entry `key` of `edges_pseudo_normal` (edges are visited in the order
+`(0,1)`, `(0,2)`, `(1,2)`) -/
+def edgeStep [Geo V N] (key : Nat × Nat) (acc : Option N) (tc : Tri × Option (N × N × N × N)) : Option N :=
+  match tc.2 with
+  | none => acc
+  | some (n, _, _, _) =>
+    edgeAdd (V := V) key n (edgeAdd (V := V) key n (edgeAdd (V := V) key n acc (sortedPair tc.1.a tc.1.b))
+      (sortedPair tc.1.a tc.1.c)) (sortedPair tc.1.b tc.1.c)
+
+/-- value of `edges_pseudo_normal.get(key)`: the additions into that entry, in program order;
+`none` if the key was never inserted -/
 def edgeAcc [Geo V N] (cs : List (Tri × Option (N × N × N × N))) (key : Nat × Nat) : Option N :=
-  cs.foldl (fun acc tc => match tc.2 with
-    | none => acc
-    | some (n, _, _, _) =>
-      let add1 (acc : Option N) (e : Nat × Nat) : Option N :=
-        if e = key then some (Geo.nadd V (acc.getD (Geo.nzero V)) n) else acc
-      add1 (add1 (add1 acc (sortedPair tc.1.a tc.1.b)) (sortedPair tc.1.a tc.1.c)) (sortedPair tc.1.b tc.1.c)) none
+  cs.foldl (edgeStep (V := V) key) none
 
 /-- `compute_pseudo_normals` on the buffers; `none` = an index panics -/
 def computePN [Geo V N] (vs : List V) (idx : List Tri) : Option (PN N) :=
@@ -480,32 +490,41 @@ def setFlagsW [Geo V N] (dim3 : Bool) (s : Mesh V N) (flags : Flags) : Option (M
   | none => none
   | some _ => some ({ s with flags := flags }, r)
 
-/-- `set_flags` with `fixes/C11-set-flags-stale.diff`: once the buffers have changed, everything the new
-flags ask for is recomputed (`difference = flags`) -/
-def setFlags [Geo V N] (dim3 : Bool) (s : Mesh V N) (flags : Flags) : Option (Mesh V N × Option TopoErr) :=
-  let prevLen := s.indices.length
+/-! `set_flags` with `fixes/C11-set-flags-stale.diff`, stage by stage.  `diff` is the Rust variable `difference`:
+what still has to be (re)computed; it is reset to `flags` as soon as the buffers have changed. -/
+
+/-- the three `= None` resets at the top of `set_flags` -/
+def dropStage (dim3 : Bool) (s : Mesh V N) (flags : Flags) : Mesh V N :=
   let s := if !flags.topoFamily then { s with topology := none } else s
   let s := if dim3 && !flags.pnFamily then { s with pn := none } else s
-  let s := if !flags.ccf then { s with cc := none } else s
-  let diff := flags.diff s.flags
-  match (if diff.mergeFamily then (mergeStep s flags.delDegen flags.delDup).map (·, flags) else some (s, diff)) with
-  | none => none
-  | some (s, diff) =>
-  match (if diff.topoFamily then
-            (topoStep s flags.delBad).map fun (s', r) =>
-              (s', r, if s'.indices.length != s.indices.length then flags else diff)
-         else some (s, none, diff)) with
-  | none => none
-  | some (s, r, diff) =>
-  match (if diff.ccf then ccStep s else some s) with
-  | none => none
-  | some s =>
-  match (if dim3 && diff.pnFamily then pnStep s else some s) with
-  | none => none
-  | some s =>
-  match (if prevLen != s.indices.length then rebuildQbvh s else some ()) with
-  | none => none
-  | some _ => some ({ s with flags := flags }, r)
+  if !flags.ccf then { s with cc := none } else s
+
+def mergeStage [Geo V N] (s : Mesh V N) (flags diff : Flags) : Option (Mesh V N × Flags) :=
+  if diff.mergeFamily then (mergeStep s flags.delDegen flags.delDup).map (·, flags) else some (s, diff)
+
+def topoStage (s : Mesh V N) (flags diff : Flags) : Option (Mesh V N × Option TopoErr × Flags) :=
+  if diff.topoFamily then
+    (topoStep s flags.delBad).map fun sr =>
+      (sr.1, sr.2, if sr.1.indices.length != s.indices.length then flags else diff)
+  else some (s, none, diff)
+
+def ccStage (s : Mesh V N) (diff : Flags) : Option (Mesh V N) :=
+  if diff.ccf then ccStep s else some s
+
+def pnStage [Geo V N] (dim3 : Bool) (s : Mesh V N) (diff : Flags) : Option (Mesh V N) :=
+  if dim3 && diff.pnFamily then pnStep s else some s
+
+def qbvhStage (prevLen : Nat) (s : Mesh V N) : Option Unit :=
+  if prevLen != s.indices.length then rebuildQbvh s else some ()
+
+/-- `set_flags` with `fixes/C11-set-flags-stale.diff` -/
+def setFlags [Geo V N] (dim3 : Bool) (s : Mesh V N) (flags : Flags) : Option (Mesh V N × Option TopoErr) :=
+  (mergeStage (dropStage dim3 s flags) flags (flags.diff s.flags)).bind fun s1 =>
+  (topoStage s1.1 flags s1.2).bind fun s2 =>
+  (ccStage s2.1 s2.2.2).bind fun s3 =>
+  (pnStage dim3 s3 s2.2.2).bind fun s4 =>
+  (qbvhStage s.indices.length s4).bind fun _ =>
+  some ({ s4 with flags := flags }, s2.2.1)
 
 def blank (vs : List V) (idx : List Tri) : Mesh V N :=
   { vertices := vs, indices := idx, pn := none, topology := none, cc := none, flags := Flags.empty }
